@@ -39,6 +39,11 @@ pub enum Form {
     NameHelp,
     NameHelpBuckets,
 }
+thread_local! {
+    /// set by Args::opts when opts! evaluated its constant-label arguments another number of times
+    /// than once each: (expected, counted)
+    pub static ARG_EVALS_WRONG: std::cell::Cell<Option<(u32, u32)>> = std::cell::Cell::new(None);
+}
 #[derive(Serialize, Deserialize, Clone, Debug, PartialEq)]
 pub struct Args {
     pub name: String,
@@ -56,11 +61,21 @@ impl Args {
     /// opts!(name, help [, labels!{..}] [, labels!{..}])
     pub fn opts(&self) -> Opts {
         let c = &self.consts;
+        // every argument expression of the macro is evaluated exactly once (counted here)
+        let evals = std::cell::Cell::new(0u32);
+        fn counted<'a>(evals: &std::cell::Cell<u32>, x: HashMap<&'a str, &'a str>) -> HashMap<&'a str, &'a str> {
+            evals.set(evals.get() + 1);
+            x
+        }
+        let once = |x| counted(&evals, x);
         let o = match c.len() {
             0 => opts!(self.name.clone(), self.help.clone()),
-            1 => opts!(self.name.clone(), self.help.clone(), labels! { c[0].0.as_str() => c[0].1.as_str() },),
-            _ => opts!(self.name.clone(), self.help.clone(), labels! { c[0].0.as_str() => c[0].1.as_str(), }, labels! { c[1].0.as_str() => c[1].1.as_str() }),
+            1 => opts!(self.name.clone(), self.help.clone(), once(labels! { c[0].0.as_str() => c[0].1.as_str() }),),
+            _ => opts!(self.name.clone(), self.help.clone(), once(labels! { c[0].0.as_str() => c[0].1.as_str(), }), once(labels! { c[1].0.as_str() => c[1].1.as_str() })),
         };
+        if evals.get() != c.len().min(2) as u32 {
+            ARG_EVALS_WRONG.with(|f| f.set(Some((c.len().min(2) as u32, evals.get()))));
+        }
         self.preset_vars.iter().fold(o, |o, v| o.variable_label(v.clone()))
     }
     /// histogram_opts!(name, help [, buckets [, labels!{..}]])
@@ -275,7 +290,11 @@ fn execute(plan: &MacroPlan, mode: Mode) -> RunOut {
             for (i, c) in calls.iter().enumerate() {
                 ctx.invoke(op_id(t, i));
                 let arm = format!("register_{:?}{}!({:?}{})", c.kind, if c.with_registry { "_with_registry" } else { "" }, c.form, if c.trailing { ", trailing comma" } else { "" });
+                ARG_EVALS_WRONG.with(|f| f.set(None));
                 let r = crate::seams::catch(|| super::macro_arms::invoke(&c.kind, &c.form, c.with_registry, c.trailing, &c.args, &named));
+                if let Some((want, got)) = ARG_EVALS_WRONG.with(|f| f.take()) {
+                    v.push(Violation::new("C20/arguments", "C20/argument-evaluated-twice", format!("{}: opts! evaluated its {} constant-label argument expression(s) {} times in total (an explicit call evaluates each once)", arm, want, got)));
+                }
                 stats.lock().unwrap().0 += 1;
                 // the explicit twin goes to a registry of its own with the same configuration
                 let twin_reg = if c.with_registry {
